@@ -713,7 +713,9 @@ pub fn check_main(def: &PropDef, tier: Tier) -> i32 {
     if let Some(extra) = def.extra {
         let ctx = Ctx { id: def.id.to_string(), tier, seed, worker: 0, nworkers, cases, dump_index: None, dump_to: None };
         if let Some(v) = extra(&ctx, &mut ev) {
-            if let Some(w) = known.lookup(def.id, &v.key) {
+            if v.key.starts_with("harness|") {
+                inconclusive.push(format!("{}: {}", v.key, v.detail));
+            } else if let Some(w) = known.lookup(def.id, &v.key) {
                 known_lines.insert(v.key.clone(), w.clone());
             } else {
                 let p = write_replay(def.id, &v);
